@@ -80,6 +80,16 @@ type ProcResult struct {
 	Writes     int
 	Reads      int
 	EndClock   time.Time
+	Root       string
+}
+
+// stdoutNorm is the output with the scratch root replaced, so that logs do not depend on
+// the name of the scratch directory.
+func (r *ProcResult) stdoutNorm() string {
+	if r.Root == "" {
+		return r.Stdout
+	}
+	return strings.ReplaceAll(r.Stdout, r.Root, "$ROOT")
 }
 
 // Alive reports whether the process ran to its own end (not killed by the simulator).
@@ -301,6 +311,7 @@ func runProc(spec *ProcSpec) (res ProcResult) {
 			res.Failed = err != nil || code != 0
 		}
 		res.Stdout = s.Output()
+		res.Root = spec.Root
 		res.Events = s.Events()
 		res.Fired = s.FiredCounts()
 		res.SeamEvents, res.Yields, res.MapRanges, res.MapPerm, res.Uncontrol = s.Snapshot()
@@ -358,6 +369,6 @@ func (r *ProcResult) logLines() []string {
 		out = append(out, fmt.Sprintf("fired %s %d", k, r.Fired[k]))
 	}
 	out = append(out, fmt.Sprintf("end code=%d failed=%v crashed=%v killed=%v exited=%v hang=%v site=%s stdout=%d:%s",
-		r.ExitCode, r.Failed, r.Crashed, r.Killed, r.ExitedVia, r.Hang, r.PanicSite, len(r.Stdout), fnv(r.Stdout)))
+		r.ExitCode, r.Failed, r.Crashed, r.Killed, r.ExitedVia, r.Hang, r.PanicSite, len(r.stdoutNorm()), fnv(r.stdoutNorm())))
 	return out
 }
